@@ -103,10 +103,14 @@ func init() {
 			b3 := s.makeBlock(b2, "", all)
 			b3b := s.makeBlock(b2, "", all)
 			b4 := s.makeBlock(b3, "", all)
-			s.deliverAll(a[0], a[1], b1, b2, b3b)
-			s.idle() // the side branch is now written to disk
-			s.deliverAll(b4)
-			s.deliver(b3) // connects b3-b4: reorg attempt through the invalid b2
+			if eval(b2); b2.valid {
+				s.tieFail("corpus-setup", "b2 was meant to be invalid")
+				return
+			}
+			s.deliverAll(a[0], a[1], b1, b2) // b2 (invalid once connected) has the same height as the tip: stored aside
+			s.idle()                         // ... and written to disk
+			s.deliver(b3)                    // more work: reorg attempt, fails at b2 which now has the child b3
+			s.deliverAll(b3b, b4)            // descendants of the dropped branch: refused
 			s.deliverAll(s.chainOf(a[1], 1, all)...)
 			s.idle()
 		}},
